@@ -223,6 +223,19 @@ type smServer struct {
 	ch    chan struct{}
 	stop  chan struct{}
 	Reps  []string
+	ln    *memnet.Listener
+	extra []*memnet.Conn
+}
+
+// addConn lets the same state machine accept one more connection (with its own local endpoint).
+func (s *smServer) addConn(local string) *memnet.Conn {
+	c := memnet.NewConn()
+	if local != "" {
+		c.SetLocal(local)
+	}
+	s.extra = append(s.extra, c)
+	s.ln.Push(c)
+	return c
 }
 
 type firedRec struct {
@@ -312,6 +325,7 @@ func newSMServer(settings *sm.Settings, local string, register func(s *smServer)
 		}
 	}()
 	ln := memnet.NewListener()
+	s.ln = ln
 	srv := &diam.Server{Handler: s.SM}
 	if len(dp) > 0 {
 		srv.Dict = dp[0]
@@ -327,6 +341,9 @@ func newSMServer(settings *sm.Settings, local string, register func(s *smServer)
 
 func (s *smServer) shutdown() {
 	s.Conn.Close()
+	for _, c := range s.extra {
+		c.Close()
+	}
 	close(s.stop)
 }
 
